@@ -1187,7 +1187,9 @@ def svd_T(ctx, case, B, ir, ie, with_scale):
     sc = float((ref ** 2).sum() + (T[7] ** 2) * (est ** 2).sum()) + 1e-300
     # rounding only: the returned quaternion/translation are rounded to eps, which moves every transformed point by ~eps*|s R x|
     # -> cost changes by <= 2 sqrt(cost * sc) * k eps + (k eps)^2 sc (no term proportional to sc alone at first order)
-    if not c_im <= c_np + 256 * EPS64 * math.sqrt(c_np * sc) + (64 * EPS64) ** 2 * sc * len(est):
+    # ill-conditioned (nearly collinear) sources: the rotation about the line is determined only to eps*D0/D1, which costs (eps)^2 sc D0/D1
+    ill = float(D[0]) / max(float(D[1]), 1e-14 * float(D[0]), 1e-300)
+    if not c_im <= c_np + 256 * EPS64 * math.sqrt(c_np * sc) + (64 * EPS64) ** 2 * sc * (len(est) + ill):
         ctx.fail(pub(case), f"svdstf-contract: svdstf alignment cost {c_im:.6e} exceeds the optimum {c_np:.6e} (with_scale={with_scale}, {len(est)} points)")
     cond = float(D[1] / D[0]) if D[0] > 0 else 0.0
     return T, cond
@@ -1577,7 +1579,16 @@ def check_rpe(ctx: Ctx, case, mb: MB, B, Tsvd, cond, ts, rnd) -> None:
     bad = stats_close(vals, want, 8 * tau + unit_slack, m)
     if bad:
         i = STAT_KEYS.index(bad)
-        ctx.fail(pub(case), f"rpe-value: rpe(etype={rk['etype']}, mode={mode}, {rk['associate']}, delta={rk['delta']}, all={rk['all']}, rpair={rk['rpair']}) {bad} = {vals[i]!r}, the documented error over the {m} index pairs gives {want[i]!r} (tol {8 * tau + unit_slack:.3e})")
+        diag = ""
+        try:        # diagnostics: is the implementation's own result reproducible, and which transform did the two svdstf calls return
+            again = stat_vals(run_metric(A.rpe, B["rs"], B["rp"], B["es"], B["ep"], dtype, **kw))[i]
+            diag = f"; a second identical call gives {again!r}"
+            if svd_mode:
+                T2 = svd_T(ctx, case, B, ir, ie, with_scale_m)[0]
+                diag += f"; svdstf returned {[float(x) for x in T]} / on a second call {[float(x) for x in T2]}"
+        except Exception as e:
+            diag = f"; (diagnostic re-run raised {excs(e)})"
+        ctx.fail(pub(case), f"rpe-value: rpe(etype={rk['etype']}, mode={mode}, {rk['associate']}, delta={rk['delta']}, all={rk['all']}, rpair={rk['rpair']}) {bad} = {vals[i]!r}, the documented error over the {m} index pairs gives {want[i]!r} (tol {8 * tau + unit_slack:.3e}){diag}")
     if not abs(vals[5] - m * vals[4] ** 2) <= 64 * EPS64 * abs(vals[5]) + 1e-300:
         ctx.fail(pub(case), f"traj-stats: SSE {vals[5]!r} != n*RMSE^2 = {m * vals[4] ** 2!r} (n={m})")
     # oracle: identical trajectories
@@ -3299,6 +3310,32 @@ def run_pass5(ctx: Ctx, mb: MB):
             if tuple(v.shape) != (() if rd != "none" else (5,)) or not bool(np.all(np.abs(v.numpy() - want) <= 64 * EPS64 * 4)):
                 ctx.fail(c, f"defaults29: GeodesicLoss object #{oi} built with reduction {'omitted' if rd == 'mean' and oi in (0, 2, 4, 6) else repr(rd)} returns "
                             f"{v.tolist()!r}; documented ({rd}) {np.asarray(want).tolist()!r}")
+        # class 33: `reduction` re-assigned after construction (plain torch usage) or overridden as a PROPERTY by a user subclass
+        class PropLoss(GL):
+            def __init__(self):
+                super().__init__()
+                self.mode_ = "sum"
+
+            @property
+            def reduction(self):
+                return getattr(self, "mode_", "mean")
+
+            @reduction.setter
+            def reduction(self, v):
+                pass
+        ob = GL()
+        ob.reduction = "sum"
+        pl_ = PropLoss()
+        for lab, o_, want in (("attribute re-assigned to 'sum' after construction", ob, ang.sum()), ("user subclass whose `reduction` is a property returning 'sum'", pl_, ang.sum())):
+            v = o_(P.SO3(qa_), P.SO3(qb_))
+            ctx.note_case(("pass5", "property33", lab), True)
+            ctx.count("property33")
+            if v.dim() != 0 or not abs(float(v) - want) <= 64 * EPS64 * 4:
+                ctx.fail({"kind": "defaults29", "fn": "GeodesicLoss", "variant": lab}, f"property33: GeodesicLoss with {lab} returns {v.tolist()!r}, the sum is {float(want)!r}")
+        pl_.mode_ = "none"
+        v = pl_(P.SO3(qa_), P.SO3(qb_))
+        if tuple(v.shape) != (5,):
+            ctx.fail({"kind": "defaults29", "fn": "GeodesicLoss", "variant": "property switched to 'none'"}, "property33: GeodesicLoss does not follow its `reduction` property after it changed to 'none'")
         # functions: omitted interval / extrapolate / etype / diff / offset / align / delta … after calls with other explicit values
         ptsd = torch.randn(5, 2, generator=g, dtype=torch.float64)
         Xd = torch.tensor(R.walk(random.Random(11), 7, 1.0, 0.4), dtype=torch.float64)
@@ -3411,6 +3448,15 @@ def run_pass5(ctx: Ctx, mb: MB):
                     r_n = quiet(lambda: fn_(None, P.SE3(Xs_), None, P.SE3(Ys_), **kw))
                     if not (bits_eq(r_i, r_f) and bits_eq(r_i, r_n)):
                         ctx.fail(c | {"fn": fn_.__name__}, f"dtypes30: {fn_.__name__} with {sdt} stamps {st_i.tolist()} differs from the call with the same stamps in float64 / with index stamps")
+                    # estimate stamps one unit LATER / EARLIER than the reference stamps (differences of either sign inside the stamp dtype), diff = 1.5 / 2.5
+                    st_r, st_e = (st_i * 2 + 4).to(sdt), (st_i * 2 + 5).to(sdt)
+                    for a_, b_, df_ in ((st_r, st_e, 1.5), (st_e, st_r, 1.5), (st_r, (st_i * 2 + 2).to(sdt), 2.5)):
+                        kw2 = {**kw, "diff": df_}
+                        r_i = quiet(lambda: fn_(a_, P.SE3(Xs_), b_, P.SE3(Ys_), **kw2))
+                        r_f = quiet(lambda: fn_(a_.double(), P.SE3(Xs_), b_.double(), P.SE3(Ys_), **kw2))
+                        if not bits_eq(r_i, r_f):
+                            ctx.fail(c | {"fn": fn_.__name__, "rstamps": a_.tolist(), "estamps": b_.tolist(), "diff": df_},
+                                     f"dtypes30: {fn_.__name__} with {sdt} stamps {a_.tolist()} / {b_.tolist()} (diff={df_}) differs from the call with the same stamps in float64")
             except Exception as e:
                 ctx.fail(c, f"dtypes30-raises: {sdt} stamps raised {excs(e)}")
     for idt in (torch.int64, torch.int32, torch.int16, torch.int8, torch.uint8, torch.bool):      # scope rule: integer points are refused on the clean tree
